@@ -432,8 +432,8 @@ class ConvexPolyhedron(GeoBody):
         return hash(
             (
                 "ConvexPolyhedron",
-                round(self._get_polygon_hash_sum(), SIG_FIGURES),
-                round(self._get_point_hash_sum(), SIG_FIGURES),
+                round(self._get_polygon_hash_sum(), get_sig_figures()),
+                round(self._get_point_hash_sum(), get_sig_figures()),
             )
         )
 
